@@ -69,9 +69,9 @@ def run(chk):
             d = {g: 'scalar' for g in fields}
             d[f] = 'none'
             wspecs.append(d)
-        kinds = ('PINN',) if eq_type == 'ODE' else (('PINN', 'SPINN') if thorough else ('PINN',))
+        kinds = ('PINN',) if eq_type == 'ODE' else ('PINN', 'SPINN')
         for kind in kinds:
-            for ws in wspecs:
+            for ws in (wspecs if (kind == 'PINN' or thorough) else wspecs[:1]):
                 for pk in (((), ('nu',)) if (kind == 'PINN' and (thorough or ws is wspecs[0])) else ((),)):
                     terms = tuple(t for t in names if not (kind == 'SPINN' and t == 'obs') and not (pk and t == 'norm'))
                     cfg = {"loss": eq_type, "net": kind, "weights": ws, "param_batch": list(pk), "terms": list(terms)}
